@@ -33,7 +33,7 @@ pub fn entries() -> Vec<(&'static str, crate::EntryFn)> {
     ]
 }
 
-fn show_mindustry(d: &mindustry::types::ServerData) -> String {
+pub fn show_mindustry(d: &mindustry::types::ServerData) -> String {
     use mindustry::types::GameMode::*;
     format!(
         "M{{{}}}",
@@ -78,7 +78,7 @@ fn entry_mindustry_dp(args: &[&str]) -> String { mindustry_with(args, true) }
 
 // ---------------------------------------------------------------- Savage 2
 
-fn show_savage2(r: &savage2::Response) -> String {
+pub fn show_savage2(r: &savage2::Response) -> String {
     format!(
         "S2{{{}}}",
         [
@@ -126,7 +126,7 @@ fn show_env(e: &gamedig::protocols::valve::Environment) -> String {
     .to_string()
 }
 
-fn show_ffow(r: &ffow::Response) -> String {
+pub fn show_ffow(r: &ffow::Response) -> String {
     format!(
         "FF{{{}}}",
         [
@@ -183,7 +183,7 @@ fn show_ship_player(p: &theship::TheShipPlayer) -> String {
     )
 }
 
-fn show_theship(r: &theship::Response) -> String {
+pub fn show_theship(r: &theship::Response) -> String {
     format!(
         "TS{{{}}}",
         [
@@ -281,7 +281,7 @@ fn entry_battalion_dp(args: &[&str]) -> String { battalion_with(args, true) }
 
 // ---------------------------------------------------------------- Eco (the pure part: serde + From<Root>)
 
-fn show_eco(r: &eco::Response) -> String {
+pub fn show_eco(r: &eco::Response) -> String {
     format!(
         "E{{{}}}",
         [
